@@ -1,51 +1,28 @@
 #!/usr/bin/env python3
-"""C07-D6: Interface.remove_child_interface() removes a sub-interface that is attached to a service together with its
-link, but leaves the service's ServicePort behind without a peer."""
+"""C07/C08: unpeer() of two services that do not peer (both peer with a third one, and both are attached to one NIC) must raise
+'do not peer' and leave the model alone. Before fix 84b4990 it deleted the ports joining them to the NIC. Exit 1 = violated."""
 import os, sys
-HERE = os.path.dirname(os.path.abspath(__file__))
-ROOT = os.environ.get('FIM_ROOT', os.path.abspath(os.path.join(HERE, '..', '..')))
+ROOT = os.environ.get('FIM_ROOT') or os.path.dirname(os.path.dirname(os.path.dirname(os.path.abspath(__file__))))
 sys.path.insert(0, ROOT)
-
-import fim.user as f
-from fim.user import ComponentType, ServiceType, Labels
-
-
-def service_ports_without_single_peer(t):
-    g = t.graph_model.storage.extract_graph(t.graph_model.graph_id)
-    bad = []
-    for n, d in g.nodes(data=True):
-        if d.get('Class') == 'ConnectionPoint' and d.get('Type') == 'ServicePort':
-            peers = []
-            for l in g.neighbors(n):
-                if g.nodes[l].get('Class') == 'Link':
-                    peers += [m for m in g.neighbors(l) if m != n and g.nodes[m].get('Class') == 'ConnectionPoint']
-            if len(peers) != 1:
-                bad.append((d['Name'], len(peers)))
-    return bad
-
-
-t = f.ExperimentTopology()
-n1 = t.add_node(name='n1', site='UKY')
-nic1 = n1.add_component(name='nic1', ctype=ComponentType.SmartNIC, model='ConnectX-6')
-port = nic1.interface_list[0]
-sub = port.add_child_interface(name='sub1', labels=Labels(vlan='100'))
-svc = t.add_network_service(name='net1', nstype=ServiceType.FABNetv4, interfaces=[sub])
-assert service_ports_without_single_peer(t) == []
-t.validate()
-
-port.remove_child_interface(name='sub1')
-
-bad = service_ports_without_single_peer(t)
-print('after remove_child_interface("sub1"): ServicePorts with != 1 peer:', bad)
-print('service net1 still lists:', [i.name for i in t.network_services['net1'].interface_list])
+from fim.user.topology import ExperimentTopology
+from fim.user.network_service import ServiceType
+from fim.user.component import ComponentModelType
+t = ExperimentTopology()
+n1 = t.add_node(name='n1', site='RENC'); n2 = t.add_node(name='n2', site='RENC')
+c1 = n1.add_component(name='nic1', model_type=ComponentModelType.SmartNIC_ConnectX_6)
+c2 = n2.add_component(name='nic2', model_type=ComponentModelType.SmartNIC_ConnectX_6)
+f1 = t.add_network_service(name='fab1', nstype=ServiceType.FABNetv4, interfaces=[c1.interface_list[0]])
+f2 = t.add_network_service(name='fab2', nstype=ServiceType.FABNetv4, interfaces=[c2.interface_list[0]])
+f3 = t.add_network_service(name='fab3', nstype=ServiceType.FABNetv4, interfaces=[c2.interface_list[1]])
+f1.peer(f2); f1.peer(f3)
+before = sorted(i.name for s in ('fab2', 'fab3') for i in t.network_services[s].interface_list)
 try:
-    t.validate()
-    print('topology.validate() passes')
+    f2.unpeer(f3)
+    print('unpeer of two services that do not peer was accepted')
+    bad = True
 except Exception as e:
-    print('topology.validate() now fails:', str(e)[:120])
-
-if bad:
-    print('VIOLATION: every service port must have exactly one peer')
-    sys.exit(1)
-print('property held')
-sys.exit(0)
+    print('rejected:', e)
+    bad = False
+after = sorted(i.name for s in ('fab2', 'fab3') for i in t.network_services[s].interface_list)
+print('ports before', before); print('ports after ', after)
+sys.exit(1 if bad or before != after else 0)
